@@ -21,6 +21,7 @@
 //   static uint64_t exact_cap(uint32_t k);         // largest n that plain updates keep exact
 //   static const bool self_merge_ok;               // x.merge(x) is supported (merges a snapshot)
 //   static bool convert_gap(uint32_t k, uint64_t n);   // state (k, n) has an empty level below the top one
+//   static uint32_t large_k(bool max);             // the largest (or a second large) configurable k
 //   template<class K> static int level0_unsorted(const SK<K>&);   // 1 / 0 / -1 (not published) from to_string()
 //   template<class T> static void bound(const SK<T>&, uint32_t retained, uint64_t n, const std::string& ctx);
 //   template<class T> static void counters(const SK<T>&, const Observed&, bool after_merge);
@@ -1032,10 +1033,72 @@ void run_case_convert(uint64_t idx, Rng& r) {
   (void) idx;
 }
 
+// ------------------------------------------------------------------------------- largest-k case
+// A handful of cases per run use the largest configurable k of the family (classic 32768 / 16384, KLL 65535 / 40000,
+// REQ 1024 / 512) with a float stream of more than three exact capacities, observed around the point where the first
+// compaction must happen, plus a merge of two exact sketches whose union crosses that point.
+template<typename F>
+void run_case_largek(uint64_t idx, Rng& r) {
+  typedef typename F::template SK<float> SK;
+  const std::string fam = F::name();
+  const uint32_t s1 = static_cast<uint32_t>(r.next()), s2 = static_cast<uint32_t>(r.next());
+  datasketches::random_utils::rand.seed(s1);
+  datasketches::random_utils::random_bit.seed(s2);
+  const typename F::Cfg cfg = F::cfg(r);
+  const bool kmax = r.chance(0.7);
+  const uint32_t k = F::large_k(kmax);
+  const uint64_t cap = F::exact_cap(k);
+  const uint64_t total = 3 * (cap + 1) + r.below(cap / 8 + 100);
+  const int shape = r.chance(0.5) ? S_RANDOM : static_cast<int>(r.below(S_NSHAPES));
+  describe(fam + " LARGE-K type=float " + F::cfg_str(cfg) + " k=" + std::to_string(k) + " n=" + std::to_string(total) + " shape=" + shape_name(shape) +
+           " coin_seeds=" + std::to_string(s1) + "," + std::to_string(s2));
+  fcount(fam, "largek_cases");
+  if (kmax) fcount(fam, "largek_cases_at_max_k");
+  uint32_t serial = 0;
+  const std::vector<float> all = gen_stream<float>(r, total, shape, 0, 0.001, serial);
+  SK sk(F::template make<float>(k, cfg, std::less<float>()));
+  Model<float> m;
+  auto obs = [&](SK& s, Model<float>& mm, const char* after, bool light) {
+    const Observed o = observe<F, float>(s, mm, r, std::string("after ") + after + " " + F::cfg_str(cfg) + " k=" + std::to_string(s.get_k()), 16, r.chance(0.3), light);
+    F::template counters<float>(s, o, false);
+    return o;
+  };
+  // pieces: up to one below the exact capacity, then single updates across it, then the rest in two chunks
+  const uint64_t cuts[] = {cap - 1, cap, cap + 1, cap + 2, cap + 3, (cap + 3 + total) / 2, total};
+  const bool lightv[] = {true, false, false, false, true, true, false};
+  uint64_t at = 0;
+  for (unsigned c = 0; c < 7; ++c) {
+    const std::vector<float> piece(all.begin() + static_cast<std::ptrdiff_t>(at), all.begin() + static_cast<std::ptrdiff_t>(cuts[c]));
+    at = cuts[c];
+    if (!feed<F, float>(sk, m, piece, r)) return;
+    obs(sk, m, "large-k updates", lightv[c]);
+  }
+  fcount(fam, "largek_n_ge_3_exact_capacities");
+  // two exact sketches whose union exceeds the exact capacity: the merge itself must trigger the compaction
+  SK a(F::template make<float>(k, cfg, std::less<float>())), b(F::template make<float>(k, cfg, std::less<float>()));
+  Model<float> ma, mb;
+  const uint64_t na = (cap + 1) * 6 / 10 + r.below(100), nb = (cap + 1) / 2 + r.below(100);
+  if (!feed<F, float>(a, ma, gen_stream<float>(r, na, static_cast<int>(r.below(S_NSHAPES)), 0, 0.0, serial), r)) return;
+  if (!feed<F, float>(b, mb, gen_stream<float>(r, nb, static_cast<int>(r.below(S_NSHAPES)), static_cast<int64_t>(na / 2), 0.0, serial), r)) return;
+  try {
+    if (r.coin()) a.merge(b); else a.merge(std::move(b));
+    ma.absorb(mb);
+    obs(a, ma, "merge of two exact large-k sketches crossing the exact capacity", false);
+    fcount(fam, "largek_merge_crossing_exact_capacity");
+    sk.merge(a);
+    m.absorb(ma);
+    obs(sk, m, "large-k estimating merged with large-k sketch", false);
+  } catch (const std::exception& e) { checked(); fail(fam + "|merge|threw", std::string("large-k merge threw: ") + e.what()); return; }
+  (void) idx;
+}
+
 template<typename F, typename K>
 void run_one(uint64_t idx, Rng& r, uint64_t ntypes) {
   const uint64_t slot = (idx / ntypes) % 20;
-  if (slot == 7) run_case_huge<F, K>(idx, r);
+  if (std::is_same<K, float>::value && (idx / ntypes) % 400 == 9) {
+    if constexpr (std::is_same<K, float>::value) run_case_largek<F>(idx, r);
+  }
+  else if (slot == 7) run_case_huge<F, K>(idx, r);
   else if (slot == 3 || slot == 13) {
     if constexpr (std::is_same<K, float>::value) run_case_convert<F>(idx, r); else run_case_t<F, K>(idx, r);
   }
